@@ -4,6 +4,7 @@ sub-agent mutants) to evidence/<id>.json written by the checker."""
 import json, sys, os
 V = os.path.dirname(os.path.dirname(os.path.abspath(__file__)))
 prop, rc386, vjson, sjson = sys.argv[1:5]
+rjson = sys.argv[5] if len(sys.argv) > 5 else ""
 p = os.path.join(V, "evidence", prop + ".json")
 ev = json.load(open(p))
 cov = ev["coverage"]
@@ -13,6 +14,7 @@ def load(f):
     except Exception:
         return []
 vs, ss = load(vjson), load(sjson)
+rs = load(rjson) if rjson else []
 cov["selftest"] = {
     "goarch_386_pass_exit": int(rc386),
     "variants_run": len(vs),
@@ -22,7 +24,11 @@ cov["selftest"] = {
     "subagent_mutants_replayed": len(ss),
     "subagent_mutants_caught": sum(1 for s in ss if s["status"] == "caught"),
     "subagent_mutants_missed": [s["id"] for s in ss if s["status"] == "missed"],
+    "refactorings_applied": sum(1 for r in rs if r["status"] != "SKIP"),
+    "refactorings_silent": sum(1 for r in rs if r["status"] == "SILENT"),
+    "refactorings_skipped": [r["refactor"] for r in rs if r["status"] == "SKIP"],
+    "refactorings_alarm": [r for r in rs if r["status"] == "ALARM"],
 }
-cov["explanation"] += " Thorough tier additionally: whole-program SSA, compiler prove-pass cross-check of bounds obligations, a second pass with GOARCH=386, %d seeded variants (%d as expected) and %d independently written mutants (%d caught) replayed against scratch copies of the current tree." % (
-    len(vs), cov["selftest"]["variants_as_expected"], len(ss), cov["selftest"]["subagent_mutants_caught"])
+cov["explanation"] += " Thorough tier additionally: whole-program SSA, compiler prove-pass cross-check of bounds obligations, a second pass with GOARCH=386, %d seeded variants (%d as expected) and %d independently written mutants (%d caught) replayed against scratch copies of the current tree, and %d independently written behaviour-preserving refactorings applied (%d silent)." % (
+    len(vs), cov["selftest"]["variants_as_expected"], len(ss), cov["selftest"]["subagent_mutants_caught"], cov["selftest"]["refactorings_applied"], cov["selftest"]["refactorings_silent"])
 json.dump(ev, open(p, "w"), indent=1)
